@@ -38,6 +38,7 @@ class Ctx:
         self.findings = [f for f in load_findings() if f.get("property") == prop]
         self.open = [f for f in self.findings if f.get("status") == "open"]
         self.known_hit = {}          # finding key -> count
+        self.background = set()      # deviations that are OPEN findings of other properties, visible in this check's traces
         self.violations = []         # replay paths
         self.states = 0
         self.transitions = 0
@@ -184,6 +185,57 @@ class Ctx:
                 self.notes.append(f"trace validation stopped after {rejects} rejections")
                 return total - rejects
 
+    def validate_cases(self, module, cfg, runs, *, on_reject, timeout=1800, tag="tc", max_rejects=20):
+        """Trace validation for multi-event cases.  runs: list of (case_id, [events]); the first event of a
+        run gets `devs` = the open deviations and the trace spec may explain the run under any subset of
+        them, printing <<"MSG","EXPL",case,Dev>> for every explanation.  A run explained by Dev = {} is
+        fine; one explained only by non-empty sets is a known finding (smallest set credited); a run no
+        set explains is rejected: on_reject(case_id, index_in_run), the run is dropped, the rest re-validated."""
+        import re as _re
+        runs = list(runs)
+        od = self.open_devs()
+        rejects = 0
+        expl = {}
+        while runs:
+            evs, owner = [], []
+            for (cid, es) in runs:
+                for j, e in enumerate(es):
+                    if j == 0:
+                        e = dict(e, devs=od, case=cid)
+                    evs.append(e)
+                    owner.append((cid, j))
+            path = os.path.join(self.work, f"{tag}.{module}.{rejects}.ndjson")
+            with open(path, "w") as f:
+                for e in evs:
+                    f.write(jdump(e) + "\n")
+            r = tlc.validate_trace(module, cfg, path, self.work, timeout=timeout)
+            if len(self.cmds) < 8:
+                self.cmds.append(r["cmd"] + "  # TRACE=<recorded ndjson>")
+            for m in r["msgs"]:
+                mm = _re.match(r'<<"MSG", "EXPL", (-?\d+), \{(.*)\}>>', m)
+                if mm:
+                    expl.setdefault(int(mm.group(1)), []).append(sorted(_re.findall(r'"([^"]+)"', mm.group(2))))
+            if r["accepted"]:
+                self.states += r["distinct"]
+                self.transitions += r["states"]
+                self.traces += len(runs)
+                break
+            i = r["unmatched"]
+            if i is None or i < 1 or i > len(evs):
+                raise tlc.ToolError("trace rejected without a usable index:\n" + r["out"][-2000:])
+            cid, j = owner[i - 1]
+            on_reject(cid, j)
+            runs = [(c, es) for (c, es) in runs if c != cid]
+            rejects += 1
+            if rejects >= max_rejects:
+                self.notes.append(f"trace validation stopped after {rejects} rejected runs")
+                break
+        for cid, sets in expl.items():
+            if [] in sets or not sets:
+                continue
+            for d in min(sets, key=len):
+                self.known_hit[d] = self.known_hit.get(d, 0) + 1
+
     def _known_from_msg(self, m):
         # <<"MSG", "KNOWN", "deviation" | {"dev1", "dev2"}, case>>
         import re as _re
@@ -195,7 +247,14 @@ class Ctx:
                 self.known_hit[d] = self.known_hit.get(d, 0) + 1
 
     def open_devs(self):
-        return sorted({f["deviation"] for f in self.open if f.get("deviation")})
+        return sorted({f["deviation"] for f in self.open if f.get("deviation")} | self.background)
+
+    def add_background(self, other_prop):
+        """Deviations listed as OPEN findings of another property also show in this check's step-level traces;
+        they are accepted here without being findings of this property (they vanish when that finding is fixed)."""
+        for f in load_findings():
+            if f.get("property") == other_prop and f.get("status") == "open" and f.get("deviation"):
+                self.background.add(f["deviation"])
 
     # ---- evidence -----------------------------------------------------------
     def finish(self, rule, trusted_base, assumptions, explanation=None):
@@ -204,6 +263,11 @@ class Ctx:
             if self.known_hit.get(k):
                 print(f"KNOWN-FINDING: property={self.prop} {f.get('what', k)} [{k}; {self.known_hit[k]} case(s)]", flush=True)
         nviol = len(self.violations)
+        own = {f.get("deviation") or f.get("key") for f in self.open}
+        bg_hits = {k: v for k, v in self.known_hit.items() if k in self.background and k not in own}
+        if bg_hits:
+            self.extra["background_deviation_hits"] = bg_hits
+            self.notes.append("deviations that are open findings of another property were met in the traces and accepted: " + ", ".join(sorted(bg_hits)))
         cov = dict(
             evaluations=self.evaluations,
             distinct_nontrivial=len(self.distinct),
